@@ -396,3 +396,15 @@ class PyDictP:
 
     def copy(self):
         return PyDictP(self.items)
+
+
+class IntMapP:
+    """dict[int, int]: key set + value array"""
+
+    __slots__ = ("keys", "vals")
+
+    def __init__(self, keys, vals):
+        self.keys, self.vals = keys, vals
+
+    def copy(self):
+        return IntMapP(self.keys, self.vals)
